@@ -14,6 +14,7 @@ class Profile:
     track_fingerprints = False
     new_entry_hooks: tuple = ()
     known_gate = True
+    structural_only = False       # C14: rows are not evaluated, so joins the documentation leaves unspecified are allowed
     fault_sites: tuple = ()
     fault_fraction = 0.5          # fraction of runs in the faulting batch
     enumerate_faults = False
@@ -102,7 +103,7 @@ class C02(Profile):
             rng, engines=["sql"],
             weights={**UNARY_W, "chain": 2, "join": 3, "leaf": 1.5},
             max_ops=14 if big else 9, nleaves=(2, 4), hidden_p=0.3, udf_p=0.05,
-            bounds=("exact", "loose", "zeromin", "unbounded"), special_leaf_p=0.05,
+            bounds=("exact", "loose", "zeromin", "unbounded"), special_leaf_p=0.05, adjacent_p=0.3,
         )
         return {"config": swarm_config(rng), "ops": g.build()}
 
@@ -487,6 +488,7 @@ class C14(Profile):
     prop = "C14"
     eval_stats = ('trees_walked',)
     claims = {k: "C14" for k in ("malformed_tree", "noop_not_identity", "missing_rejection")}
+    structural_only = True
 
     def claim(self, kind, entry, run, v):
         if kind == "missing_rejection" and "engine" not in v["detail"].get("reason", ""):
@@ -503,7 +505,7 @@ class C14(Profile):
 
     def gen(self, rng, tier):
         w = {**MULTI_W, "process": 1.5, "join": 2, "ill": 2}
-        return multi_gen(rng, tier, weights=w, flags_p=0.6, udf_p=0.15, itonly_p=0.5,
+        return multi_gen(rng, tier, weights=w, flags_p=0.6, udf_p=0.15, itonly_p=0.5, nonkey_join_p=0.3,
                          engines=["sql", "it", "it2"] if rng.random() < 0.6 else ["sql", "it"])
 
     def dn_keys(self, run):
@@ -605,7 +607,7 @@ class C17(Profile):
             return multi_gen(rng, tier, weights=w, flags_p=0.3, engines=["sql", "it"])
         g = Gen(rng, engines=["sql"], weights={**UNARY_W, "chain": 2, "join": 2, "leaf": 1, "rawtree": 4, "conform_inner": 1,
                                                "mat": 0.7, "process": 0.7},
-                max_ops=14 if big else 10, nleaves=(1, 3), adjacent_p=0.2)
+                max_ops=14 if big else 10, nleaves=(1, 3), adjacent_p=0.35)
         return {"config": swarm_config(rng), "ops": g.build()}
 
     def dn_keys(self, run):
